@@ -397,3 +397,13 @@ Definition exit_code (o : outcome) : N :=
 Definition s_HT : str := [72; 44; 84]%N.
 Definition ckh_graded (c : str) (p : params) : bool :=
   (is_zero (p_h p) && is_zero (p_t p)) || str_eqb c s_H || str_eqb c s_0T || str_eqb c s_HT.
+
+(* (check helper) constants beyond 32 bits: the library computes in i64 and whether an intermediate product
+   overflows (a panic) depends on the hash-seeded elimination order, i.e. on the process *)
+Definition big_const (c : cval) : bool :=
+  match c with
+  | VInt z => (2 ^ 31 <=? Z.abs z)%Z
+  | VRat n d => (2 ^ 31 <=? Z.abs n)%Z || (2 ^ 31 <=? Z.abs d)%Z
+  | VMono _ _ => false
+  end.
+Definition overflow_prone (p : params) : bool := big_const (p_h p) || big_const (p_t p).
